@@ -121,20 +121,23 @@ def check(ctx):
             got0 = got1 = gotn = False
             for pc, val in s.returns:
                 c = T.conj(pc)
-                if c == ('==', n, ZERO):
+                at0 = pc_under(pc, {n: ZERO})
+                at1 = pc_under(pc, {n: ONE})
+                at2 = pc_under(pc, {n: T.num(2)})
+                if at0 is True and at1 is False and at2 is False:
                     got0 = True
                     for fld_ in ('calls_', 'non_zero_calls_', 'finite_calls_', 'sum_',
                                  'sum_of_squares_'):
                         check_equal(ctx, 'R2.empty', where + ':' + fld_, 'no results -> zero result',
                                     fld(val, fld_), ZERO)
-                elif c == ('==', n, ONE):
+                elif at1 is True and at0 is False and at2 is False:
                     got1 = True
                     if val == sel(R, ZERO):
                         ctx.holds('R2.single', where, 'one result is returned unchanged')
                     else:
                         ctx.violation('R2.single', where, 'one result is not returned unchanged',
                                       {'returned': T.pretty(val)[:400]})
-                else:
+                elif at2 is True and at0 is False and at1 is False and pc_under(pc, {n: T.num(7)}) is True:
                     gotn = True
                     check_equal(ctx, 'R2.mean', where, 'equally weighted mean', value_of(p, val),
                                 F.we_mean(R, n, K))
@@ -173,14 +176,15 @@ def check(ctx):
             got1 = gotn = False
             for pc, val in s.returns:
                 c = T.conj(pc)
-                if c == ('==', n, ONE):
+                if pc_under(pc, {n: ONE}) is True and pc_under(pc, {n: T.num(2)}) is False and \
+                        pc_under(pc, {n: ZERO}) is False:
                     got1 = True
                     if val == ('const', 'inf'):
                         ctx.holds('R5.single', where, 'one result -> infinity')
                     else:
                         ctx.violation('R5.single', where, 'one result does not give infinity',
                                       {'returned': T.pretty(val)[:300]})
-                else:
+                elif pc_under(pc, {n: ONE}) is False and pc_under(pc, {n: T.num(2)}) is True:
                     gotn = True
                     check_equal(ctx, 'R5.formula', where, 'chi^2/dof', val, F.chi2_dof(R, n, K, mean))
             if not (got1 and gotn):
